@@ -28,6 +28,7 @@ from . import cpu_count, get_context
 from . import util
 from .common import (
     TERM_SIGNAL, human_status, pickle_loads, reset_signals, restart_state,
+    _should_have_exited,
 )
 from .compat import get_errno, mem_rss, send_offset
 from .einfo import ExceptionInfo
@@ -361,6 +362,11 @@ class Worker:
                     try:
                         result = (True, prepare_result(fun(*args, **kwargs)))
                     except BaseException:
+                        if _should_have_exited[0]:
+                            # termination signal received while running
+                            # the task: exit instead of reporting the
+                            # signal's SystemExit as the task's error.
+                            raise
                         result = (False, ExceptionInfo())
                     try:
                         put((READY, (job, i, result, inqW_fd)))
@@ -423,6 +429,9 @@ class Worker:
         # Make sure all exiting signals call finally: blocks.
         # This is important for the semaphore to be released.
         reset_signals(full=self.sigprotection)
+        # a fresh worker has not been asked to exit, whatever the state
+        # of the flag was in the process it was forked from.
+        _should_have_exited[0] = False
 
         # install signal handler for soft timeouts.
         if SIG_SOFT_TIMEOUT is not None:
